@@ -45,7 +45,10 @@ class GeckoSnapshot:
             # Match "Log version 9"
             (r"Log version (\d+)", self._re_log_version),
             # Match "['0x5', '0x1', ... '0x0']"
-            (r"\[([0-9A-Fa-fx\\' ,]*)\]", self._re_data),
+            (
+                r"\[('0x[0-9A-Fa-f]+'(?:,\s*'0x[0-9A-Fa-f]+')*)\]\s*$",
+                self._re_data,
+            ),
             #
             #   Connection set
             #
